@@ -26,7 +26,7 @@ RULE = ("scripted chunk schedules (c07.sched): 1..4 real client handlers, each c
         "from a few bytes to 200 KB (beyond the 32 KiB transport read and beyond 64 KiB), hidden messages, delimiter- and newline-terminated "
         "messages, cut into transport chunks of at most 32 KiB at random places and interleaved at random; "
         "seeded cluster runs: 1..3 servers x 1..4 files x 1..120 lines, line lengths from short to longer than one transport read (40 000 > 32 KiB), "
-        "MaxLineLength below and above the line length (split lines renumber); non-trivial = multi-server / multi-file / split / long tag")
+        "MaxLineLength below and above the line length (split lines renumber); non-trivial = multi-server / multi-file / split / long tag; c07.grep: grep readers with a selective expression into one handler (the record's number is the line's number in the file)")
 
 
 def gen(rng, budget, tier):
